@@ -8,6 +8,7 @@ import lib
 import pygen
 import cfgcommon as cc
 from c06 import CLASS_FILE, run_cli, latest_json
+import c20mcp
 
 # set to True once the report is deterministic (C05 repairs): then sections are compared exactly, order included
 STRICT_ORDER = True
@@ -110,9 +111,10 @@ def main(tier):
     rng = ck.rng
     thorough = tier == "thorough"
     root = lib.fresh_dir("c20")
-    stats = dict(section_comparisons=0, per_file_comparisons=0, subsets=0, race_runs=0, mcp_comparisons=0, projects=0)
+    stats = dict(section_comparisons=0, per_file_comparisons=0, subsets=0, race_runs=0, mcp_hook_comparisons=0, projects=0)
+    only = os.environ.get("VERIF_C20_ONLY", "")      # development aid: "mcp" runs only the MCP section
     nproj = 3 if thorough else 1
-    for pi in range(nproj):
+    for pi in range(0 if only else nproj):
         d, files = make_project(root, "p%d" % pi, rng, n_mods=4 if thorough else 3)
         stats["projects"] += 1
         # ---------- (a) combined vs separate ----------
@@ -193,7 +195,7 @@ def main(tier):
         if ck.go_ok:
             for analyses, sel in ((["complexity", "dead_code"], "complexity,deadcode"), (["cbo", "lcom"], "cbo,lcom"), (["complexity", "dead_code", "cbo", "lcom", "deps"], "complexity,deadcode,cbo,lcom,deps")):
                 r = lib.driver([{"op": "mcp", "tool": "analyze_code", "args": {"path": d, "output_mode": "full", "analyses": analyses}}])[0]
-                stats["mcp_comparisons"] += 1
+                stats["mcp_hook_comparisons"] += 1
                 if r.get("is_error") or "error" in r:
                     ck.violation("MCP analyze_code failed on a project the CLI analyses: %s" % str(r)[:300], {"kind": "mcp", "analyses": analyses})
                     continue
@@ -215,10 +217,17 @@ def main(tier):
                 if m.get("summary", {}).get("health_score") != (c or {}).get("summary", {}).get("health_score"):
                     ck.violation("MCP analyze_code health score %s differs from the CLI's %s" % (m.get("summary", {}).get("health_score"), (c or {}).get("summary", {}).get("health_score")),
                                  {"kind": "mcp", "analyses": analyses, "project": d})
+    # ---------- (d') all seven MCP tools on the real server binary vs the command line (harness/c20mcp.py) ----------
+    if only:
+        files = []
+    if ck.go_ok:
+        stats.update(c20mcp.run(ck, root, thorough))
     # ---------- (c) data races: -race build of the real binary ----------
     race_bin = os.path.join(lib.BIN, "pyscn-race")
-    with lib.Lock("race"):
-        rc, out, err = lib.run(["go", "build", "-race", "-o", race_bin, "./cmd/pyscn"], cwd=lib.REPO, env=lib.GOENV, timeout=900)
+    rc, err = 1, "skipped (VERIF_C20_ONLY)"
+    if not only:
+        with lib.Lock("race"):
+            rc, out, err = lib.run(["go", "build", "-race", "-o", race_bin, "./cmd/pyscn"], cwd=lib.REPO, env=lib.GOENV, timeout=900)
     if rc != 0:
         ck.notes.append("race build unavailable: " + err[-300:])
         stats["race_build"] = "unavailable"
@@ -247,17 +256,30 @@ def main(tier):
                 ck.violation("the race detector reports a data race in the concurrent analyses (GOMAXPROCS=%d, targets %s)" % (procs, targets),
                              {"kind": "race", "targets": targets, "report": p.stderr[max(0, i - 100):i + 3000]})
                 break
-    ck.samples = [{"project_files": files, "selects": ["complexity", "deadcode", "clones", "cbo", "lcom", "deps"]}]
+    ck.samples = [{"project_files": files, "selects": ["complexity", "deadcode", "clones", "cbo", "lcom", "deps"]},
+                  {"mcp_tools": c20mcp.TOOLS, "mcp_scenarios": [x["name"] for x in stats.get("mcp_scenarios", [])],
+                   "mcp_example": {"tool": "check_complexity", "arguments": {"path": "<project>", "min_complexity": 2, "output_mode": "full"},
+                                   "cli": "pyscn analyze --json --no-open --select complexity --min-complexity 2 <project>"}}]
     ck.cov.update({
-        "evaluations": stats["section_comparisons"] + stats["per_file_comparisons"] + stats["mcp_comparisons"] + stats["race_runs"],
-        "distinct_nontrivial": stats["subsets"] + stats["section_comparisons"],
+        "evaluations": stats["section_comparisons"] + stats["per_file_comparisons"] + stats["mcp_hook_comparisons"] + stats["race_runs"]
+                       + sum(stats.get("mcp_comparisons", {}).values()) + sum(stats.get("mcp_error_cases", {}).values()),
+        "distinct_nontrivial": stats["subsets"] + stats["section_comparisons"] + sum(stats.get("mcp_nonempty_findings", {}).values()),
         "rule": "generated project (generated control-flow modules, classes, an import cycle, a duplicated class file): combined report vs each "
                 "--select run per section; per-file rows of complexity/dead code/CBO/LCOM for every file alone, reversed order and random subsets "
-                "vs the whole project; MCP analyze_code (in-process) vs CLI with the same options; -race build of the CLI under several GOMAXPROCS",
+                "vs the whole project; all seven MCP tools (analyze_code, check_complexity, detect_clones, check_coupling, find_dead_code, "
+                "check_cohesion, get_health_score) called on the real pyscn-mcp server over stdio vs `pyscn analyze --json` / `pyscn check` with "
+                "the same path and options: projected findings (function/class/finding rows, clone pairs, health and category scores) in the "
+                "full, summary and detailed output modes, option lattice (min/max complexity, severity, similarity threshold at and next to "
+                "values present in the project, min_lines, min_cbo, max_results), directory / sub-directory / single-file / relative paths, "
+                "five configuration scenarios (default, .pyscn.toml found from the server's directory, only from the path, PYSCN_CONFIG, "
+                "config that sets the quick-filter keys), and per tool missing / empty / non-Python paths and invalid option values (both "
+                "front ends must reject or both accept with equal findings; no crash); MCP analyze_code through the in-process hook; "
+                "-race build of the CLI under several GOMAXPROCS",
         "input_distribution": stats, "strict_order": STRICT_ORDER, "disagreements_checked": len(ck.violations),
     })
     ck.trusted += ["Coq 8.16.1 kernel", "data-race freedom is tested with the Go race detector, not proved (Go memory model and scheduler not modelled)",
-                   "MCP transport not modelled: handlers are called in-process through the tagged driver",
+                   "MCP side: the real cmd/pyscn-mcp binary driven over stdio JSON-RPC (initialize + tools/call); the in-process hook (op mcp) only for analyze_code",
+                   "MCP vs CLI equality is decided on projected findings (rows, pairs, scores), not on the presentation (field names, order, wording)",
                    "models Service/Pipeline.v, Service/Isolation.v, Cli/Frontends.v"]
     ck.finish(assumptions=["while STRICT_ORDER is False, list order and the value fields named in UNSTABLE_KEYS are not compared (they differ between two runs of the same command: property C05)"])
 
